@@ -263,6 +263,9 @@ class Continuous(AgentSchedulingComponent):
                 for gpu_idx,gpu_occ in enumerate(node['gpus'][loop_gpu_idx:],
                                                               loop_gpu_idx):
 
+                    if gpu_occ is rpc.DOWN:
+                        continue
+
                     gpu_used = gpu_occ + gpu_shares.get(gpu_idx, 0.0)
                     if gpus_per_slot <= rpc.BUSY - gpu_used:
                         slot['gpus'].append(RO(index=gpu_idx,
